@@ -648,11 +648,20 @@ impl expr::Expr
 						let right = propagate!(
 							right_expr.eval_with_ctx(report, ctx, provider)?);
 
-						let left_usize = left
-							.expect_usize(report, span)?
+						let left_usize = left.expect_usize(report, span)?;
+						let right_usize = right.expect_usize(report, span)?;
+
+						// Bounds that are inverted by just one would otherwise
+						// pass as an empty range after the increment below
+						if left_usize < right_usize
+						{
+							report.error_span("invalid slice range", span);
+							return Err(());
+						}
+
+						let left_usize = left_usize
 							.checked_add(1)
 							.ok_or_else(|| report.error_span("value is out of supported range", span))?;
-						let right_usize = right.expect_usize(report, span)?;
 
 						Ok(expr::Value::make_integer(
 							x.checked_slice(
